@@ -492,10 +492,20 @@ class NumbaReductionOps:
 
     @_scalar_func_decorator
     def min(x, y):
+        # a null operand is only met when nulls are not skipped: it makes the result null
+        if is_null(x):
+            return x
+        if is_null(y):
+            return y
         return x if x <= y else y
 
     @_scalar_func_decorator
     def max(x, y):
+        # a null operand is only met when nulls are not skipped: it makes the result null
+        if is_null(x):
+            return x
+        if is_null(y):
+            return y
         return x if x >= y else y
 
     @_scalar_func_decorator
